@@ -256,7 +256,11 @@ pub fn stress(dir: &str, output: &str, seed: u64, thorough: bool) -> Value {
 			}
 			let mut all = vec![];
 			for h in hs {
-				all.extend(h.await.unwrap());
+				match h.await {
+					Ok(v) => all.extend(v),
+					// a task that DIED (a panic inside the reader) is a concurrent result as well: "no bytes" for a stored tile
+					Err(_) => all.push(json!({"ev":"Conc","src":src,"t":999,"z":coords[0].z,"x":coords[0].x,"y":coords[0].y,"h":-1,"via":"task_died"})),
+				}
 			}
 			all
 		});
@@ -288,7 +292,8 @@ pub fn stress(dir: &str, output: &str, seed: u64, thorough: bool) -> Value {
 						for round in 0..rounds {
 							// (the crowd is re-aligned before every round where a round is long, otherwise every 50 rounds)
 							if src == "versatiles_big" || round % 50 == 0 {
-								barrier.wait().await;
+								// (a member of the crowd that died never arrives: do not wait for it for ever)
+								let _ = tokio::time::timeout(std::time::Duration::from_secs(30), barrier.wait()).await;
 							}
 							let c = *r.pick(&coords);
 							let max = ((1u64 << c.z) - 1) as u32;
@@ -318,7 +323,11 @@ pub fn stress(dir: &str, output: &str, seed: u64, thorough: bool) -> Value {
 				}
 				let mut all = vec![];
 				for h in hs {
-					all.extend(h.await.unwrap());
+					match h.await {
+					Ok(v) => all.extend(v),
+					// a task that DIED (a panic inside the reader) is a concurrent result as well: "no bytes" for a stored tile
+					Err(_) => all.push(json!({"ev":"Conc","src":src,"t":999,"z":coords[0].z,"x":coords[0].x,"y":coords[0].y,"h":-1,"via":"task_died"})),
+				}
 				}
 				all
 			});
